@@ -20,6 +20,10 @@ type c06Scen struct {
 	chunks []string
 	size   string // empty, one, many
 	kind   Beh
+	// passFirst > 0: the first passFirst test cases of run 1 pass (learnt by a dry run), so that the failing case
+	// is a later one; baseSeed != 0 replaces the base seed of run 1 (seeds near 2^64: the failing case's own seed wraps)
+	passFirst int
+	baseSeed  uint64
 }
 
 func c06Prog(sc c06Scen) *LazyProgram {
@@ -88,7 +92,7 @@ func c06Names(quick bool) []string {
 func c06Chunks() []string {
 	return []string{"", "\n", "#", "# x", "\r\n", "v0.4.8#1\n0x1", "\xff\xfe bad utf8", "nul\x00byte", "plain line",
 		strings.Repeat("L", 65000), strings.Repeat("M", 65533), strings.Repeat("N", 65536), strings.Repeat("O", 70000), strings.Repeat("P", 1<<20),
-		strings.Repeat("short\n", 300)}
+		strings.Repeat("short\n", 300), strings.Repeat("l\n", 1100), strings.Repeat("many lines\n", 5000)}
 }
 
 func c06Run(c *Ctx, sc c06Scen, seed uint64) { c06RunAs(c, sc, seed, "C06") }
@@ -103,7 +107,28 @@ func c06RunAs(c *Ctx, sc c06Scen, seed uint64, prop string) {
 	viol := func(clause, detail string) {
 		c.Violate(Violation{Sig: prop + " " + clause, Detail: detail + "\nscenario: " + desc, Replay: replay})
 	}
-	cfg := Config{Checks: 3, Seed: seed, ShrinkMS: 40, Name: sc.name}
+	cfg := Config{Checks: 3 + sc.passFirst, Seed: seed, ShrinkMS: 40, Name: sc.name}
+	if sc.baseSeed != 0 {
+		cfg.Seed = sc.baseSeed
+	}
+	if sc.passFirst > 0 {
+		dry := NewEnv(nil, func(string, string) Beh { return BPass })
+		dcfg := cfg
+		dcfg.Checks, dcfg.NoFailFile = sc.passFirst, true
+		RunCheck(&LazyProgram{Name: "c06-dry", Body: prog.Body, Base: func(string, string) Beh { return BPass }}, dry, dcfg)
+		pass := map[string]bool{}
+		for i, inv := range dry.Invs {
+			if i < sc.passFirst {
+				pass[inv.Draws] = true
+			}
+		}
+		prog.Base = func(ctx, d string) Beh {
+			if pass[d] {
+				return BPass
+			}
+			return sc.kind
+		}
+	}
 	env1 := NewEnv(nil, prog.Base)
 	log1 := RunCheck(prog, env1, cfg)
 	c.R.Evals++
@@ -260,21 +285,28 @@ func c06Units(tier string, seed int64) []Unit {
 	var scens []c06Scen
 	// every name x one output; every output sequence x few names; sizes x kinds
 	for i, n := range c06Names(quick) {
-		scens = append(scens, c06Scen{n, []string{chunks[i%9]}, sizes[i%3], kinds[i%len(kinds)]})
+		scens = append(scens, c06Scen{name: n, chunks: []string{chunks[i%9]}, size: sizes[i%3], kind: kinds[i%len(kinds)]})
 	}
 	for i, a := range chunks {
-		scens = append(scens, c06Scen{"TestOut", []string{a}, sizes[i%3], kinds[i%len(kinds)]})
+		scens = append(scens, c06Scen{name: "TestOut", chunks: []string{a}, size: sizes[i%3], kind: kinds[i%len(kinds)]})
 		for j, b := range chunks {
 			if quick && (len(a) > 1000 && len(b) > 1000) {
 				continue
 			}
-			scens = append(scens, c06Scen{"Out/é", []string{a, b}, sizes[(i+j)%3], BFatalA})
+			scens = append(scens, c06Scen{name: "Out/é", chunks: []string{a, b}, size: sizes[(i+j)%3], kind: BFatalA})
 		}
 	}
-	scens = append(scens, c06Scen{"TestNoLog", nil, "few", BFatalA})
+	scens = append(scens, c06Scen{name: "TestNoLog", chunks: nil, size: "few", kind: BFatalA})
 	for _, s := range append(append([]string{}, sizes...), "steps") {
 		for _, k := range kinds {
-			scens = append(scens, c06Scen{"TestSK", []string{"plain line"}, s, k})
+			scens = append(scens, c06Scen{name: "TestSK", chunks: []string{"plain line"}, size: s, kind: k})
+		}
+	}
+	// the failing case is the k-th one of a run whose base seed is just below 2^64: the case's own seed wraps around
+	// (to exactly 0 for some k) - the failure is persisted and replayed like any other
+	for _, d := range []uint64{0, 1, 2, 3, 5, 6, 9, 10, 14, 15} {
+		for _, k := range []int{1, 2, 3, 4, 5} {
+			scens = append(scens, c06Scen{name: "TestWrap", chunks: []string{"plain line"}, size: "few", kind: BFatalA, passFirst: k, baseSeed: ^uint64(0) - d})
 		}
 	}
 	const per = 12
